@@ -139,15 +139,25 @@ func (lv *LeafVariants) remainsToExist() bool {
 		return false
 	}
 
+	intentRemoved, running, defaults := false, false, false
 	// go through all variants
 	for _, l := range lv.les {
-		// if an entry exists that does not have the delete flag set,
-		// then a remaining LeafVariant exists.
-		if !l.GetDeleteFlag() {
-			return true
+		switch l.Owner() {
+		case RunningIntentName:
+			running = running || !l.GetDeleteFlag()
+		case DefaultsIntentName:
+			defaults = defaults || !l.GetDeleteFlag()
+		default:
+			// an intent that keeps the value (or gives it up in the intended store only)
+			if l.GetDeleteOnlyIntendedFlag() || !l.GetDeleteFlag() {
+				return true
+			}
+			intentRemoved = true
 		}
 	}
-	return false
+	// the running value goes when the last intent defining the leaf gives it up
+	// (the leaf is then deleted from the device); a default applies whenever nothing else is left
+	return defaults || (running && !intentRemoved)
 }
 
 func (lv *LeafVariants) GetHighestPrecedenceValue() int32 {
@@ -249,14 +259,25 @@ func (lv *LeafVariants) GetHighestPrecedence(onlyNewOrUpdated bool, includeDefau
 func (lv *LeafVariants) GetHighestPrecedenceRemaining() *LeafEntry {
 	lv.lesMutex.RLock()
 	defer lv.lesMutex.RUnlock()
-	var highest *LeafEntry
+	var highest, defaults *LeafEntry
+	intentRemoved := false
 	for _, e := range lv.les {
 		if e.GetDeleteFlag() {
+			if e.Owner() != RunningIntentName && e.Owner() != DefaultsIntentName && !e.GetDeleteOnlyIntendedFlag() {
+				intentRemoved = true
+			}
 			continue
+		}
+		if e.Owner() == DefaultsIntentName {
+			defaults = e
 		}
 		if highest == nil || highest.Priority() > e.Priority() {
 			highest = e
 		}
+	}
+	// the running value goes when the last intent defining the leaf gives it up
+	if highest != nil && highest.Owner() == RunningIntentName && intentRemoved {
+		return defaults
 	}
 	return highest
 }
